@@ -20,11 +20,12 @@ from .api import is_helper
 
 
 class Dyn:
-    """residual expression (python source over h, k, l)"""
-    __slots__ = ("src",)
+    """residual expression (python source over h, k, l); `parts` keeps the structure of a conditional (cond, then, else)"""
+    __slots__ = ("src", "parts")
 
-    def __init__(self, src):
+    def __init__(self, src, parts=None):
         self.src = src
+        self.parts = parts
 
     def __repr__(self):
         return "Dyn(%s)" % self.src
@@ -95,7 +96,13 @@ def ite(c, a, b):
         return Poison("sequences of different length on the two arms of a dynamic test")
     if isinstance(a, Unbound) or isinstance(b, Unbound):
         return Poison("bound on one arm of a dynamic test only")
-    return Dyn("(%s if %s else %s)" % (src(a), c.src, src(b)))
+    # (x if c2 else e) if c else e  ==  x if (c and c2) else e      -- keeps a chain of guarded overrides linear in size
+    if is_dyn(a) and a.parts is not None and vkey(a.parts[2]) == vkey(b):
+        return ite(b_and(c, a.parts[0]), a.parts[1], b)
+    # e if c else (x if c2 else e)  ==  x if ((not c) and c2) else e
+    if is_dyn(b) and b.parts is not None and vkey(b.parts[2]) == vkey(a):
+        return ite(b_and(b_not(c), b.parts[0]), b.parts[1], a)
+    return Dyn("(%s if %s else %s)" % (src(a), c.src, src(b)), parts=(c, a, b))
 
 
 def truth(v):
